@@ -29,10 +29,16 @@ as DESIGN section 3 C07 says):
 
 Widths below struct_min(description) are only executed (crash = violation).
 
+Render contexts: the clauses are also judged when the same table is rendered with inherited
+print options (no_wrap=True; justify/overflow), as the cell of an outer grid column
+(no_wrap / fixed width / ratio) and inside Panel / Padding -- see render_ctx().
+
 Bounds and cost (measured; the machine was shared, so CPU seconds are the reliable number):
-quick    21.9 k tables, 280.2 k renders, ~2.1 k distinct outcomes, ~590 CPU-s (~40 s wall on 16 idle cores);
-thorough ~290 k tables, ~3.6 M renders (extrapolated from every 9th shard after the alphabet grew; the last full
-         run, before that, was 242 k tables / 3.05 M renders / 9.3 k CPU-s), ~10-11 k CPU-s (~12 min on 16 idle cores).
+quick    31.7 k tables, 406.8 k renders, ~2.9 k distinct outcomes, ~800 CPU-s (80 s wall with 16 workers at
+         load average ~11; ~55 s on 16 idle cores);
+thorough not re-measured after families C/J and the 13-entry menu were added (the last full run, before the
+         asymmetric paddings, was 242 k tables / 3.05 M renders / 9.3 k CPU-s; estimated now ~14 k CPU-s, ~15 min
+         on 16 idle cores).
 DESIGN planned "<=4 columns, <=3+2 deviations" at 0.8 ms per render; a render of a 3x3 table with nested
 cells costs 9 ms, so the deviation bound is per (shape, filling, default overflow) unit -- see _units().
 """
@@ -941,7 +947,13 @@ def run_case(desc, W, res, ctx="plain"):
         # table at the same width fails too, the failure belongs to (and is reported by) the plain
         # families, and a container cropping an over-wide table would only blur it.
         try:
-            plain = judge(desc, avail, render_lines(desc, avail)).problems
+            plain_lines = render_lines(desc, avail)
+            plain = judge(desc, avail, plain_lines).problems
+            if nested and any(sw(l) > avail for l in plain_lines):
+                # wider than the room it was given (C01's business, for this property the known
+                # column-min_width finding): the container crops it -- artefact, as above
+                res.sig((ctx, "cropped-by-container"), nontrivial=False)
+                return
         except Exception:
             plain = [("crash", "")]
         if not plain:
@@ -979,7 +991,15 @@ def describe(tier, seed, res):
                 "struct_min+3. All sets of <=k deviations are enumerated. Family A: every filling of the 1x1, 2x1 and 1x2 "
                 "(columns x rows) tables over the full menu and of the 3x1 table%s over the reduced menu %r x 5 table "
                 "option vectors x {ellipsis, fold}; family P (fold): %s x every padding value (default + %d) x collapse_padding x "
-                "pad_edge x (no column option or one of %r on one column)%s. "
+                "pad_edge x (no column option or one of %r on one column); family J: one-row tables, the first cell each of "
+                "the %d menu entries x justify %r x overflow %r x no_wrap x expand, 1 column in every render context and "
+                "2 columns %s; family C: the <=k-deviation tables of family O (fold, offset 0) for %s in every non-plain "
+                "render context. Render contexts %r: plain; console.print(table, no_wrap=True); console.print(table, "
+                "justify='full', overflow='crop'); the table as the only cell of an outer Table.grid whose column has "
+                "no_wrap=True / width=W / ratio=1 (grid expanded); inside Panel; inside Padding((1,2,0,1)). The outer "
+                "width is chosen so that the table is given exactly W cells (grid:no_wrap: the width is read from the "
+                "outer lines), the container's padding is removed and all clauses apply with that width; a failure is "
+                "reported under key+'@render-context' only when the plain rendering at the same width passes%s. "
                 "Every console width in [struct_min, struct_min+10] + {40, 80} (tables with a fixed width: console widths "
                 "width-1, width, width+1, width+7, 80). A case is non-trivial when the expansion clause or an exact "
                 "fold-content clause was judged or some row needed more than one line; distinct = distinct outcome "
@@ -987,7 +1007,9 @@ def describe(tier, seed, res):
                 % (utxt, MENU, ", ".join(a for a, _ in T_ATOMS), ", ".join(a for a, _ in C_ATOMS),
                    " and the 2x2 table" if tier == "thorough" else "", A_MENU,
                    "2x1, 3x1, 2x2 offset 0" if tier == "quick" else "2x1, 3x1, 2x2, 3x2, 4x1 offsets 0 and 3",
-                   len(dict(T_ATOMS)["padding"]), P_CATOMS,
+                   len(dict(T_ATOMS)["padding"]), P_CATOMS, len(MENU), J_JUSTIFY, J_OVERFLOW,
+                   "plain only" if tier == "quick" else "in every context",
+                   ", ".join("%dx%d k<=%d" % u for u in _ctx_units(tier)), CONTEXTS,
                    "; family B: 6 columns x 8 rows x 20 option vectors x 2 fillings x {ellipsis, fold}" if tier == "thorough"
                    else "; plus rotating slice %d of %d of the three-deviation vectors on the 2x2 and 3x1 shapes "
                         "(fold, offset 0)" % (seed % SLICES, SLICES)),
@@ -997,6 +1019,8 @@ def describe(tier, seed, res):
             "struct_min = per column the widest unbreakable piece (2 for wide characters, the whole line for no_wrap, 5 for the nested Panel/Table, explicit width/min_width) + full horizontal padding + borders; below it a case is only executed",
             "exact fold content is demanded where the column span read from the output is wide enough for the cell plus full padding, and, whatever the span, at or above ample_min (columns x (largest need + padding + 1) + borders, no ratio columns) for every cell whose need is within the column's own width cap (max_width / width), if any; there an uncapped fold column must also be at least as wide as its need",
             "a table width option larger than the console width is not judged for expansion",
+            "in nested render contexts a table that is wider than the room it was given (fixed width option, or the known column-min_width finding) is cropped by the container: such cases are only executed",
+            "nested contexts: tables with a visible right border are un-padded by stripping trailing blanks, the others are cut at the implementation's own width vector (so the equal-width clause is vacuous for them there; it is judged in the plain and print-option contexts)",
         ],
         "coverage": {"tables": res.counters.get("tables", 0)},
     }
